@@ -126,18 +126,27 @@ def read(pkg_text, top_text):
             raise SvError(f"id_t struct fields {names}")
         n["id_bits"] = None
         n["xy_bits"] = [one(typedefs, "x_bits_t")[1], one(typedefs, "y_bits_t")[1], one(typedefs, "port_id_t")[1]]
-    sr = one(structs, "sam_rule_t")
-    if [fn for _, _, fn in sr] != ["idx", "start_addr", "end_addr"] or sr[0][0] != "id_t":
-        raise SvError("sam_rule_t fields")
-    aw = width_of(sr[1][1], "start_addr")
-    if sr[1][0] != "logic" or sr[2][0] != "logic" or width_of(sr[2][1], "end_addr") != aw:
-        raise SvError("sam_rule_t address types")
-    n["aw"] = aw
-    n["sam_num"] = num(one(params, "SamNumRules")["value"])
     samp = one(params, "Sam")
     n["sam_decl"] = (samp["type"], [estr(h) + ":" + estr(l) for h, l in samp["dims"]])
     sam = []
     v = samp["value"]
+    n["no_table"] = "sam_rule_t" not in structs
+    if n["no_table"]:
+        # use_id_table: false -- a placeholder address map
+        if typedefs.get("sam_rule_t", [None])[0] != ("logic", None) or v != ("fill", "0") or samp["dims"]:
+            raise SvError("placeholder address map expected")
+        n["aw"] = 0
+        n["sam_num"] = num(one(params, "NumSamRules")["value"])
+        v = ("struct", [("default", ("num", 0))])
+    else:
+        sr = one(structs, "sam_rule_t")
+        if [fn for _, _, fn in sr] != ["idx", "start_addr", "end_addr"] or sr[0][0] != "id_t":
+            raise SvError("sam_rule_t fields")
+        aw = width_of(sr[1][1], "start_addr")
+        if sr[1][0] != "logic" or sr[2][0] != "logic" or width_of(sr[2][1], "end_addr") != aw:
+            raise SvError("sam_rule_t address types")
+        n["aw"] = aw
+        n["sam_num"] = num(one(params, "SamNumRules")["value"])
     if v[0] == "array":
         for r in v[1]:
             if r[0] != "struct" or [k for k, _ in r[1]] != ["idx", "start_addr", "end_addr"]:
@@ -178,7 +187,7 @@ def read(pkg_text, top_text):
             if its[0]["value"][0] != "struct":
                 raise SvError("AxiCfg")
             n["axi_cfgs"].append((name, [(k, num(val)) for k, val in its[0]["value"][1]]))
-    known = {"SamNumRules", "Sam", "RoutingTables", "RouteCfg"} | {a for a, _ in n["axi_cfgs"]}
+    known = {"SamNumRules", "NumSamRules", "Sam", "RoutingTables", "RouteCfg"} | {a for a, _ in n["axi_cfgs"]}
     extra = set(params) - known
     if extra:
         raise SvError(f"unexpected package localparams {sorted(extra)}")
